@@ -14,6 +14,7 @@ import (
 	_ "panmc/checks/c05"
 	_ "panmc/checks/c06"
 	_ "panmc/checks/c07"
+	_ "panmc/checks/c08"
 	_ "panmc/checks/c09"
 	_ "panmc/checks/c10"
 	_ "panmc/checks/c11"
